@@ -260,4 +260,179 @@ theorem roundtrip_sec (s t : State) (h : WFs s) :
   congr 2
   omega
 
+/-! ### state (C13) and accept/reject (C09) lemmas -/
+
+theorem secHdr_indep (s : State) (f : Bytes) (pl dl : Nat) :
+    secHdr { s with filler := f, packetlen := pl, datalen := dl } = secHdr s := by
+  simp only [secHdr]
+
+/-- `pack` reads neither `filler` nor `packetlen` nor `datalen` -/
+theorem pack_ignores (s : State) (f : Bytes) (pl dl : Nat) :
+    (pack { s with filler := f, packetlen := pl, datalen := dl }).2 = (pack s).2 := by
+  simp only [pack, secHdr_indep]
+  repeat' split
+  all_goals simp_all
+
+/-- the filler `pack` computes from the secondary header and payload lengths -/
+def fillOf (s : State) (sec : Bytes) : R Bytes :=
+  let total := sec.length + s.payload.length + CH10_HDR_FORMAT_LEN + s.data_checksum_size
+  if total % 4 = 0 then .ok []
+  else structPack (Ch11_pack_fmt2 (4 - total % 4)) (List.replicate (4 - total % 4) 0xFF)
+
+/-- the state `pack` leaves once the filler is known -/
+def withFill (s : State) (sec filler : Bytes) : State :=
+  { s with filler := filler,
+           packetlen := sec.length + s.payload.length + CH10_HDR_FORMAT_LEN + s.data_checksum_size + filler.length,
+           datalen := s.payload.length }
+
+/-- the only fields `pack` writes are `filler`, `packetlen`, `datalen` — and it writes them whenever the
+    secondary header could be built, whatever happens afterwards -/
+theorem pack_state (s : State) :
+    (pack s).1 =
+      match secHdr s with
+      | .error _ => s
+      | .ok sec =>
+        match fillOf s sec with
+        | .error _ => s
+        | .ok filler => withFill s sec filler := by
+  simp only [pack, fillOf, withFill]
+  repeat' split
+  all_goals simp_all
+
+theorem ch11_pack_idempotent (s : State) : pack (pack s).1 = pack s := by
+  apply Prod.ext
+  · rw [pack_state (pack s).1, pack_state s]
+    cases hs : secHdr s with
+    | error e => simp only [hs]
+    | ok sec =>
+      simp only
+      cases hf : fillOf s sec with
+      | error e => simp only [hs, hf]
+      | ok filler =>
+        have h1 : secHdr (withFill s sec filler) = secHdr s := secHdr_indep s _ _ _
+        have h2 : fillOf (withFill s sec filler) sec = fillOf s sec := rfl
+        simp only [h1, hs, h2, hf]
+        rfl
+  · rw [pack_state s]
+    cases hs : secHdr s with
+    | error e => rfl
+    | ok sec =>
+      simp only
+      cases hf : fillOf s sec with
+      | error e => rfl
+      | ok filler => simp only; exact pack_ignores s _ _ _
+
+/-- the packet-flag byte of a buffer (byte 14) -/
+def flagByte (buf : Bytes) : Nat := decInt false ((buf.drop 14).take 1)
+
+theorem flagByte_lt (buf : Bytes) : flagByte buf < 256 := by
+  have := decInt_lt false ((buf.drop 14).take 1)
+  have h2 : ((buf.drop 14).take 1).length ≤ 1 := by simp; omega
+  unfold flagByte
+  calc _ < 256 ^ ((buf.drop 14).take 1).length := this
+    _ ≤ 256 ^ 1 := Nat.pow_le_pow_right (by omega) h2
+
+theorem ch11_accepts_iff (t : State) (buf : Bytes) :
+    (unpack t buf).2 = .ok () ↔
+      24 ≤ buf.length ∧ (flagByte buf < 128 ∨ (flagByte buf / 4 % 4 = 1 ∧ 36 ≤ buf.length)) := by
+  have hfl := flagByte_lt buf
+  unfold flagByte at *
+  generalize hfb : decInt false (List.take 1 (List.drop 14 buf)) = fb at *
+  by_cases hlen : 24 ≤ buf.length
+  · simp only [unpack, structUnpackFrom, CH10_HDR_FORMAT, Fmt.size, codesSize, Code.size, Nat.zero_add, hlen, if_true,
+      unpackCodes, List.drop_zero, List.drop_drop, setPacketflag]
+    simp only [Nat.reduceAdd, hfb]
+    bits_simp
+    have h1 : ¬ fb > 255 := by omega
+    simp only [h1, if_false]
+    by_cases h7 : fb / 128 = 1
+    · simp only [h7, if_true]
+      by_cases h0 : fb / 4 % 4 = 0
+      · simp only [h0, if_true, CH10_OPT_HDR_FORMAT, CH10_HDR_FORMAT_LEN, codesSize, Code.size]
+        by_cases h36 : 24 + (4 + (4 + (2 + (2 + 0)))) ≤ buf.length <;> simp [h36, unpackCodes] <;> omega
+      · by_cases h1' : fb / 4 % 4 = 1
+        · simp only [h1', if_true, CH10_OPT_HDR_FORMAT, CH10_HDR_FORMAT_LEN, codesSize, Code.size]
+          simp only [show (1:Nat) = 0 ↔ False by decide, if_false, unpackCodes]
+          by_cases h36 : 24 + (4 + (4 + (2 + (2 + 0)))) ≤ buf.length <;> simp [h36] <;> omega
+        · simp only [h0, h1', if_false]
+          simp <;> omega
+    · simp only [h7, if_false]
+      simp <;> omega
+  · simp only [unpack, structUnpackFrom, CH10_HDR_FORMAT, Fmt.size, codesSize, Code.size]
+    have : ¬ (0 + (2 + (2 + (4 + (4 + (1 + (1 + (1 + (1 + (4 + (2 + (2 + 0))))))))))) ≤ buf.length) := by omega
+    simp only [this, if_false]
+    simp <;> omega
+
+theorem ch11_accepted_payload_exact (t : State) (buf : Bytes) (h : (unpack t buf).2 = .ok ()) :
+    (unpack t buf).1.payload = buf.drop (if flagByte buf < 128 then 24 else 36) ∧
+    (unpack t buf).1.filler = [] := by
+  have hfl := flagByte_lt buf
+  revert h
+  unfold flagByte at *
+  generalize hfb : decInt false (List.take 1 (List.drop 14 buf)) = fb at *
+  by_cases hlen : 24 ≤ buf.length
+  · simp only [unpack, structUnpackFrom, CH10_HDR_FORMAT, Fmt.size, codesSize, Code.size, Nat.zero_add, hlen, if_true,
+      unpackCodes, List.drop_zero, List.drop_drop, setPacketflag]
+    simp only [Nat.reduceAdd, hfb]
+    bits_simp
+    have h1 : ¬ fb > 255 := by omega
+    simp only [h1, if_false]
+    by_cases h7 : fb / 128 = 1
+    · have hn : ¬ fb < 128 := by omega
+      simp only [h7, if_true, hn, if_false]
+      by_cases h0 : fb / 4 % 4 = 0
+      · simp only [h0, if_true, CH10_OPT_HDR_FORMAT, CH10_HDR_FORMAT_LEN, codesSize, Code.size]
+        by_cases h36 : 24 + (4 + (4 + (2 + (2 + 0)))) ≤ buf.length <;> simp [h36, unpackCodes]
+      · by_cases h1' : fb / 4 % 4 = 1
+        · simp only [h1', if_true, CH10_OPT_HDR_FORMAT, CH10_HDR_FORMAT_LEN, CH10_OPT_HDR_FORMAT_LEN, codesSize, Code.size]
+          simp only [show (1:Nat) = 0 ↔ False by decide, if_false, unpackCodes]
+          by_cases h36 : 24 + (4 + (4 + (2 + (2 + 0)))) ≤ buf.length <;> simp [h36]
+        · simp only [h0, h1', if_false]
+          simp
+    · have hn : fb < 128 := by omega
+      simp only [h7, if_false, hn, if_true, CH10_HDR_FORMAT_LEN]
+      simp
+  · simp only [unpack, structUnpackFrom, CH10_HDR_FORMAT, Fmt.size, codesSize, Code.size]
+    have : ¬ (0 + (2 + (2 + (4 + (4 + (1 + (1 + (1 + (1 + (4 + (2 + (2 + 0))))))))))) ≤ buf.length) := by omega
+    simp only [this, if_false]
+    simp
+
+theorem ch11_unpack_state_independent (t : State) (buf : Bytes) (h : (unpack t buf).2 = .ok ()) :
+    unpack t buf = unpack { fresh with data_checksum_size := t.data_checksum_size } buf := by
+  have hfl := flagByte_lt buf
+  revert h
+  unfold flagByte at *
+  generalize hfb : decInt false (List.take 1 (List.drop 14 buf)) = fb at *
+  by_cases hlen : 24 ≤ buf.length
+  · simp only [unpack, structUnpackFrom, CH10_HDR_FORMAT, Fmt.size, codesSize, Code.size, Nat.zero_add, hlen, if_true,
+      unpackCodes, List.drop_zero, List.drop_drop, setPacketflag]
+    simp only [Nat.reduceAdd, hfb]
+    bits_simp
+    have h1 : ¬ fb > 255 := by omega
+    simp only [h1, if_false]
+    by_cases h7 : fb / 128 = 1
+    · simp only [h7, if_true]
+      by_cases h0 : fb / 4 % 4 = 0
+      · simp only [h0, if_true, CH10_OPT_HDR_FORMAT, CH10_HDR_FORMAT_LEN, codesSize, Code.size]
+        by_cases h36 : 24 + (4 + (4 + (2 + (2 + 0)))) ≤ buf.length <;> simp [h36, unpackCodes]
+      · by_cases h1' : fb / 4 % 4 = 1
+        · simp only [h1', if_true, CH10_OPT_HDR_FORMAT, CH10_HDR_FORMAT_LEN, CH10_OPT_HDR_FORMAT_LEN, codesSize, Code.size]
+          simp only [show (1:Nat) = 0 ↔ False by decide, if_false, unpackCodes]
+          by_cases h36 : 24 + (4 + (4 + (2 + (2 + 0)))) ≤ buf.length <;> simp [h36]
+        · simp only [h0, h1', if_false]
+          simp
+    · simp only [h7, if_false, CH10_HDR_FORMAT_LEN]
+      simp
+  · simp only [unpack, structUnpackFrom, CH10_HDR_FORMAT, Fmt.size, codesSize, Code.size]
+    have : ¬ (0 + (2 + (2 + (4 + (4 + (1 + (1 + (1 + (1 + (4 + (2 + (2 + 0))))))))))) ≤ buf.length) := by omega
+    simp only [this, if_false]
+    simp
+
+/-- the flag setter raises nothing but a bare Exception -/
+theorem setPacketflag_err (s : State) (v : Nat) (s2 : State) (e : Err)
+    (h : setPacketflag s v = (s2, .error e)) : e = .generic := by
+  simp only [setPacketflag] at h
+  repeat' split at h
+  all_goals simp_all
+
 end Acra.Lemmas.Ch11
